@@ -523,7 +523,7 @@ func runParent(c *Check, tier string, seed int64) {
 	newViol := 0
 	knownHit := map[string]int64{}
 	os.MkdirAll(filepath.Join(VerifDir, "replays"), 0o755)
-	if old, _ := filepath.Glob(filepath.Join(VerifDir, "replays", c.ID+"-*.json")); len(old) > 0 {
+	if old, _ := filepath.Glob(filepath.Join(VerifDir, "replays", c.ID+"-*.json")); len(old) > 0 && os.Getenv("VERIF_APPEND_EVIDENCE") != "1" {
 		for _, f := range old {
 			os.Remove(f)
 		}
@@ -582,6 +582,15 @@ func runParent(c *Check, tier string, seed int64) {
 		"violations":  newViol,
 	}
 	os.MkdirAll(filepath.Join(VerifDir, "evidence"), 0o755)
+	if os.Getenv("VERIF_APPEND_EVIDENCE") == "1" {
+		// second engine of the same property (see bin/run.sh): fold the first engine's evidence in
+		if pb, err := os.ReadFile(filepath.Join(VerifDir, "evidence", c.ID+".json")); err == nil {
+			var prev map[string]interface{}
+			if json.Unmarshal(pb, &prev) == nil {
+				mergeEvidence(ev, prev)
+			}
+		}
+	}
 	eb, _ := json.MarshalIndent(ev, "", " ")
 	if strings.HasPrefix(c.ID, "C") {
 		os.WriteFile(filepath.Join(VerifDir, "evidence", c.ID+".json"), eb, 0o644)
@@ -597,4 +606,63 @@ func firstLine(s string) string {
 		return s[:i]
 	}
 	return s
+}
+
+func evNum(x interface{}) float64 {
+	switch v := x.(type) {
+	case float64:
+		return v
+	case int:
+		return float64(v)
+	case int64:
+		return float64(v)
+	}
+	return 0
+}
+
+// mergeEvidence adds the previous engine's evidence (prev) into ev.
+func mergeEvidence(ev, prev map[string]interface{}) {
+	ev["wall_s"] = evNum(ev["wall_s"]) + evNum(prev["wall_s"])
+	ev["violations"] = int64(evNum(ev["violations"]) + evNum(prev["violations"]))
+	pc, _ := prev["coverage"].(map[string]interface{})
+	cc, _ := ev["coverage"].(map[string]interface{})
+	if pc == nil || cc == nil {
+		return
+	}
+	for _, k := range []string{"evaluations", "distinct_nontrivial", "states", "transitions", "traces_validated_against_impl"} {
+		cc[k] = int64(evNum(cc[k]) + evNum(pc[k]))
+	}
+	if b, ok := pc["exhaustive"].(bool); ok && !b {
+		cc["exhaustive"] = false
+	}
+	cc["rule"] = fmt.Sprint(pc["rule"]) + "  ||  " + fmt.Sprint(cc["rule"])
+	if ps, ok := pc["samples"].([]interface{}); ok {
+		cs, _ := cc["samples"].([]interface{})
+		cs = append(ps, cs...)
+		if len(cs) > 6 {
+			cs = cs[:6]
+		}
+		cc["samples"] = cs
+	}
+	if pcaps, ok := pc["caps_hit"].([]interface{}); ok && len(pcaps) > 0 {
+		var all []interface{}
+		all = append(all, pcaps...)
+		if cs, ok := cc["caps_hit"].([]string); ok {
+			for _, x := range cs {
+				all = append(all, x)
+			}
+		}
+		cc["caps_hit"] = all
+	}
+	cc["engines"] = []interface{}{map[string]interface{}{"first_engine_counts": pc["counts"], "first_engine_known_findings_hit": pc["known_findings_hit"], "first_engine_max_depth_completed": pc["max_depth_completed"]}}
+	if a, ok := prev["assumptions"].([]interface{}); ok {
+		var all []interface{}
+		all = append(all, a...)
+		if cs, ok := ev["assumptions"].([]string); ok {
+			for _, x := range cs {
+				all = append(all, x)
+			}
+		}
+		ev["assumptions"] = all
+	}
 }
